@@ -23,7 +23,11 @@ VERIF_MAIN {
   ukey_t key = FROM_ORD(ko), k1 = FROM_ORD(o1), k2 = FROM_ORD(o2);
   /* slope = (1 + m/8) * 2^e with m in 0..7 and e in -12..10, or 0: a few-bit significand keeps the monotonicity query easy for SAT
      (arbitrary 24/53-bit significands gave no verdict in 15 min) while key differences stay full width */
+#ifdef SLOPE_POW2
+  unsigned long long se = IN(0, 23), sm = 0;      /* wide keys: power-of-two slopes only (2^-12 .. 2^10, or 0) */
+#else
   unsigned long long se = IN(0, 23), sm = IN(0, 7);
+#endif
   fbits_t sb;
 #if FLT_BITS == 32
   sb = se == 0 ? 0u : (fbits_t) (((115ULL + se) << 23) | (sm << 20));
